@@ -110,3 +110,14 @@ U("c11_blank_line_ends_meta", ["C11", "C20"], "h_linetype", ["C11/linetype.c"], 
   bounds={"tokens on the line": "1..3", "first token": "INDENT_TAB / INDENT_SPACE / TEXT_NL / TEXT_LINEBREAK (the kinds that can start a blank line)", "following tokens": "any types"},
   functions=["mmd_assign_line_type", "line_is_empty"], callees={"scan_* (re2c)": "body removed, nondet return value", "char_is_*, tokens_prune, token_remove_first_child": "body"},
   min_obligations=2, timeout=600, cost=30, assumptions=[NOFAIL, "memory safety of the function is not claimed by this unit (standard checks off: callees are havocked)"])
+
+# ---- mmd_assign_line_type is total (C02) and types LINE_META only where metadata may be, never for a URL line (C11)
+for _nm, _ft in (("any", None),):
+    U("c11_line_type_total_%s" % _nm, ["C11", "C02"], "h_linetype2", ["C11/linetype2.c"], ["mmd.c", "char.c"], plain=True, lib=(), kind="bounded",
+      defines=(["-DFIRST_TYPE=%s" % _ft] if _ft else []),
+      pre_instrument=["--remove-function-body-regex", "^(?!mmd_assign_line_type$|line_is_empty$|char_is_.*$|h_linetype2$|scan_url$|scan_meta_line$|tokens_prune$|mk$|verif_.*$|__CPROVER.*$).*",
+                      "--generate-function-body", "^(?!__CPROVER_|malloc$|free$|verif_).*$", "--generate-function-body-options", "nondet-return"],
+      cbmc_flags=["--unwind", "12", "--unwinding-assertions", "--object-bits", "12"], checks=["--no-standard-checks"],
+      bounds={"tokens on the line": "1..3", "first token": _ft or "any type", "following tokens": "any types", "line type at entry": "0 (as the tokenizer creates it)"},
+      functions=["mmd_assign_line_type", "line_is_empty"], callees={"scan_url, scan_meta_line": "stubs recording a nondet answer", "other scan_* (re2c)": "body removed, nondet return value", "char_is_*": "body", "tokens_prune": "contract stub (the range leaves the chain)", "token_remove_first_child": "havocked"},
+      min_obligations=5, timeout=600, cost=30, assumptions=[NOFAIL, "memory safety of the function is not claimed by this unit (standard checks off: callees are havocked)"])
